@@ -86,6 +86,7 @@ type mKey struct {
 	// admissible; tolerated only while that finding is listed as known.
 	staleWake bool
 	lastEnd   string // how the most recent hold on this key ended (unlock / expiry)
+	released  [][16]byte // LockIds whose hold ended recently (generator bias: duplicate unlocks, re-use)
 }
 
 func (k *mKey) locked() int {
@@ -124,6 +125,10 @@ func (k *mKey) removeWaiter(w *mWait) {
 func (k *mKey) removeHolder(h *mHold) {
 	k.termsChanged = false
 	k.staleWake = false
+	k.released = append(k.released, h.id)
+	if len(k.released) > 6 {
+		k.released = k.released[1:]
+	}
 	for i, x := range k.holders {
 		if x == h {
 			k.holders = append(k.holders[:i:i], k.holders[i+1:]...)
